@@ -353,6 +353,35 @@ func SQLChild() int {
 			if err != nil {
 				resp.Err = err.Error()
 			}
+		case "hold":
+			// keep a plain read-only descriptor open (an application holding the file)
+			f, err := os.Open(req.Path)
+			if err != nil {
+				resp.Err = err.Error()
+			} else {
+				next++
+				files[next] = f
+				resp.H = next
+			}
+		case "preadall":
+			if f := files[req.H]; f == nil {
+				resp.Err = "no such descriptor"
+			} else if st, err := f.Stat(); err != nil {
+				resp.Err = err.Error()
+			} else {
+				buf := make([]byte, st.Size())
+				n, err := f.ReadAt(buf, 0)
+				if err != nil && err != io.EOF {
+					resp.Err = err.Error()
+				} else {
+					resp.Val = fmt.Sprintf("%d/%x", n, sha256.Sum256(buf[:n]))
+				}
+			}
+		case "dropcaches":
+			// ask the kernel to evict unused dentries and inodes (FUSE FORGET follows)
+			if err := os.WriteFile("/proc/sys/vm/drop_caches", []byte("2"), 0o200); err != nil {
+				resp.Err = err.Error()
+			}
 		case "stat":
 			if st, err := os.Stat(req.Path); err != nil {
 				resp.Err = err.Error()
@@ -864,6 +893,7 @@ func runKMount(c *core.Case, variant string, k int) {
 	if withReplica {
 		startReader()
 	}
+	heldFD := 0
 	tables := []string{"t0"}
 	nextID := map[string]int{"t0": 1}
 	curMode := mode
@@ -962,6 +992,29 @@ func runKMount(c *core.Case, variant string, k int) {
 					return
 				}
 				c.Count("kmount_replica_reads_converged", 1)
+				// an application that keeps the database open on the replica while the
+				// kernel evicts other, unused inodes of the mount (the -pos file was
+				// looked up once): pages it has cached must still be invalidated
+				rpos := mon.PosOf(R.Node, "db")
+				if heldFD == 0 {
+					if hr, err := wproc.call(sqlReq{Op: "hold", Path: filepath.Join(R.MountDir(), "db")}); err == nil {
+						heldFD = hr.H
+						_, _ = wproc.call(sqlReq{Op: "preadall", H: heldFD})
+						_, _ = wproc.call(sqlReq{Op: "stat", Path: filepath.Join(R.MountDir(), "db-pos")})
+						if _, err := wproc.call(sqlReq{Op: "dropcaches"}); err == nil {
+							c.Count("kmount_kernel_cache_evictions", 1)
+						}
+					}
+				} else if want := chain.imageAt(rpos); want != nil {
+					if pr, err := wproc.call(sqlReq{Op: "preadall", H: heldFD}); err == nil {
+						wb := want.Bytes()
+						if exp := fmt.Sprintf("%d/%x", len(wb), sha256.Sum256(wb)); pr.Val != exp {
+							fail("stale-pages-through-open-descriptor", fmt.Sprintf("an application holding the database open on the replica reads %s through its descriptor at position %s; the primary's image at that position is %s", pr.Val, rpos, exp), nil)
+							return
+						}
+						c.Count("kmount_held_descriptor_reads", 1)
+					}
+				}
 			}
 		}
 	}
